@@ -37,6 +37,13 @@ var (
 	target = map[Ty]string{TI: "x", TB: "p", TS: "y"}
 )
 
+func targetFor(o *Op, ty Ty) string {
+	if o.Name == "coalasg" {
+		return "n"
+	}
+	return target[ty]
+}
+
 // allVars is the parameter list of every generated function, in order.
 var allVars = []string{"a", "b", "c", "d", "e", "t", "f", "g", "s", "u", "v", "n", "q", "w", "x", "p", "y"}
 
@@ -83,7 +90,7 @@ func mk(o *Op, sig int, sub map[int]*Node) *Node {
 		}
 	}
 	if o.Kind == KAsg {
-		n.Target = target[s.Res]
+		n.Target = targetFor(o, s.Res)
 	}
 	return n
 }
@@ -151,12 +158,20 @@ func hasAddSub(root *Node) bool {
 }
 
 type styleSpec struct {
-	name   string
-	lit    bool
-	sp     int
-	bare   bool
-	class  string // numeric literal class ("" = plain decimal ints)
-	negDet bool   // unary minus detached
+	name    string
+	lit     bool
+	sp      int
+	bare    bool
+	class   string // numeric literal class ("" = plain decimal ints)
+	negDet  bool   // unary minus detached
+	bareAsg bool   // assignments in last-operand position printed without parentheses
+}
+
+// hasBareAsgSite: the BareAsg flag changes the minimal printing of the tree.
+func hasBareAsgSite(root *Node) bool {
+	with, _ := render(styled(root, styleSpec{name: "var-ba", bareAsg: true}), Min, nil)
+	without, _ := render(styled(root, styleSpec{name: "var"}), Min, nil)
+	return with != without
 }
 
 func hasOp(root *Node, name string) bool {
@@ -199,6 +214,12 @@ func classStyles(t *Node, all bool) []styleSpec {
 
 func stylesFor(t *Node, thoroughSp bool) []styleSpec {
 	st := []styleSpec{{name: "var"}, {name: "lit", lit: true}}
+	if hasBareAsgSite(t) {
+		st = append(st, styleSpec{name: "var-ba", bareAsg: true})
+		if thoroughSp {
+			st = append(st, styleSpec{name: "lit-ba", lit: true, bareAsg: true})
+		}
+	}
 	if hasAddSub(t) {
 		st = append(st, styleSpec{name: "lit-sp1", lit: true, sp: 1})
 		if thoroughSp {
@@ -212,6 +233,13 @@ func styled(t *Node, s styleSpec) *Node {
 	c := t.clone()
 	nameLeaves(c, s.lit, s.class)
 	setSp(c, s.sp)
+	if s.bareAsg {
+		c.walk(func(n *Node) {
+			if n.Op != nil && n.Op.Kind == KAsg {
+				n.BareAsg = true
+			}
+		})
+	}
 	if s.negDet {
 		c.walk(func(n *Node) {
 			if n.Op != nil && n.Op.Name == "neg" {
@@ -376,13 +404,16 @@ func (g *randGen) gen(ty Ty, depth int, parent *Op, pos int) *Node {
 		n.Kids = append(n.Kids, g.gen(kt, depth-1, c.o, i))
 	}
 	if c.o.Kind == KAsg {
-		n.Target = target[ty]
+		n.Target = targetFor(c.o, ty)
 	}
 	if c.o.Name == "add" || c.o.Name == "sub" {
 		n.Sp = []int{0, 0, 1, 2}[g.rng.Intn(4)]
 	}
 	if c.o.Name == "neg" {
 		n.NegDet = g.rng.Intn(4) == 0
+	}
+	if c.o.Kind == KAsg {
+		n.BareAsg = g.rng.Intn(3) == 0
 	}
 	return n
 }
